@@ -214,6 +214,16 @@ def _probe(b):
         for s_ in zsecs[-1:]:
             s_.IsSharedCurrencyZone(zsecs[0])
         co.Code in m
+    if m.ExternalSector is not None:
+        # the public cross-rate look-up (it declares the cross-rate variable on first use)
+        curs = []
+        for co in b.countries.values():
+            if co.Currency not in curs:
+                curs.append(co.Currency)
+        for x in curs:
+            for y in curs:
+                if x != y:
+                    m.ExternalSector.GetCrossRate(x, y)
 
 
 def _declare(b, c, co, did, names, specs_by_code, imported, deferred):
@@ -295,6 +305,8 @@ def _tail(b, names):
     spec = b.spec
     S = b.sectors
     m = b.model
+    if spec.get('probe'):
+        _probe(b)          # once more when everything (incl. a late external sector) is declared, before the flows are registered
     for c in spec['countries']:
         code = c['code']
         gspec = zone_gov(spec, c['cur'])
